@@ -117,12 +117,15 @@ impl Store<Write> {
     }
 
     /// Follow a node.
+    ///
+    /// If the node was blocked, it is allowed again.
     pub fn follow(&mut self, id: &NodeId, alias: Option<&Alias>) -> Result<bool, Error> {
         let mut stmt = self.db.prepare(
             "INSERT INTO `following` (id, alias)
              VALUES (?1, ?2)
              ON CONFLICT DO UPDATE
-             SET alias = ?2 WHERE alias != ?2",
+             SET alias = ?2, policy = 'allow'
+             WHERE alias != ?2 OR policy != 'allow'",
         )?;
 
         stmt.bind((1, id))?;
@@ -133,12 +136,15 @@ impl Store<Write> {
     }
 
     /// Seed a repository.
+    ///
+    /// If the repository was blocked, it is allowed again.
     pub fn seed(&mut self, id: &RepoId, scope: Scope) -> Result<bool, Error> {
         let mut stmt = self.db.prepare(
             "INSERT INTO `seeding` (id, scope)
              VALUES (?1, ?2)
              ON CONFLICT DO UPDATE
-             SET scope = ?2 WHERE scope != ?2",
+             SET scope = ?2, policy = 'allow'
+             WHERE scope != ?2 OR policy != 'allow'",
         )?;
 
         stmt.bind((1, id))?;
